@@ -5,7 +5,7 @@ Requests of `qm_c18` for M-Parse (the type-expression sub-language). Text travel
 UTF-8 bytes (`-` = empty). Offsets are byte offsets into the request's text.
 
   ptype <hex>     → ok <ty> <rest-offset> | err <offset> <code> | fuel-out      (`type_definition`, the
-                    left-factored grammar of /repo 33df1c7 = the old one: partial_or_group_factored_eq)
+                    grammar of /repo 1d93429 = the old one: partial_or_group_factored_eq, receive_factored_eq)
   pbase <hex>     → the same for `base_type`
   pfio <hex>      → the same for `function_input_type` / `function_output_type`
   pinline <hex>   → the same for `inline_type_expression` (a type in pattern position)
@@ -167,13 +167,13 @@ def sHex (cs : Str) : String := "s:" ++ strHex cs
 def typeStep (req : List Sx) : Option String :=
   match req with
   | [.atom "ptype", .atom h] =>
-    some (match hexToStr h with | some i => renderRes i (parseTypeF i) | none => "bad-request")
+    some (match hexToStr h with | some i => renderRes i (parseTypeG i) | none => "bad-request")
   | [.atom "pbase", .atom h] =>
-    some (match hexToStr h with | some i => renderRes i (parseBaseTypeF i) | none => "bad-request")
+    some (match hexToStr h with | some i => renderRes i (parseBaseTypeG i) | none => "bad-request")
   | [.atom "pfio", .atom h] =>
-    some (match hexToStr h with | some i => renderRes i (parseFunctionIoTypeF i) | none => "bad-request")
+    some (match hexToStr h with | some i => renderRes i (parseFunctionIoTypeG i) | none => "bad-request")
   | [.atom "pinline", .atom h] =>
-    some (match hexToStr h with | some i => renderRes i (parseInlineTypeF i) | none => "bad-request")
+    some (match hexToStr h with | some i => renderRes i (parseInlineTypeG i) | none => "bad-request")
   | [.atom "palias", .atom h] =>
     some (match hexToStr h with | some i => renderVerdict i (programVerdict i) | none => "bad-request")
   | [.atom "fmt-type", t] =>
